@@ -1078,3 +1078,20 @@ func ConstAlternatives(v ssa.Value) (alts [][]byte, ok bool) {
 	}
 	return
 }
+
+// smallGenericHelper: an instance of an unexported generic function of the module that has no loop (orDefault[T],
+// ptrField[T] …): explored inline like any other small helper.
+func smallGenericHelper(h *ssa.Function) bool {
+	if h == nil || !strings.HasPrefix(h.Synthetic, "instance of ") || len(h.Blocks) == 0 || !curProgRoot(h) || h.Signature.Recv() != nil {
+		return false
+	}
+	if r := []rune(h.Name()); len(r) == 0 || unicode.IsUpper(r[0]) {
+		return false
+	}
+	for _, b := range h.Blocks {
+		if LoopHeader(b) != nil {
+			return false
+		}
+	}
+	return true
+}
